@@ -132,7 +132,7 @@ func init() {
 func runC02(t *testing.T, e *worlds.Env, tier string) (bool, any) {
 	var w *worlds.TCPWorld
 	var cl *worlds.Client
-	var model *worlds.ConnModel
+	var model, model2 *worlds.ConnModel
 	var spec *RLSpec
 	var hist []worlds.MatchEval
 	cfg := &c02cfg{lists: map[string]*listInfo{}, matcherL: map[string]string{}}
@@ -205,13 +205,40 @@ func runC02(t *testing.T, e *worlds.Env, tier string) (bool, any) {
 		w = e.NewTCPWorld(routes, tmo)
 		cl = e.StartClient(w.Ln, plan, model)
 		w.Clients = append(w.Clients, cl)
+		if e.T.Prob(1, 2, "second-conn") {
+			// a second connection through the same provisioned configuration (per-connection
+			// state must not live in route lists or handlers)
+			plan2 := &worlds.ClientPlan{ID: 2, Addr: worlds.ClientAddr(2), End: worlds.EndHalfClose}
+			model2 = &worlds.ConnModel{ID: 2, Key: e.S.Seed*7 + 2, Addr: plan2.Addr.String()}
+			n2 := genAppLen(e, "quick")
+			model2.App = worlds.Stream(model2.Key, n2)
+			if e.T.Prob(1, 2, "same-head") && n2 > 0 && appLen > 0 {
+				copy(model2.App, model.App[:min(16, min(n2, appLen))]) // same first bytes: same early verdicts
+			}
+			plan2.App = model2.App
+			plan2.Chunks = e.MakeChunks(n2, 20*time.Millisecond)
+			plan2.StartAt = time.Duration(e.T.Pick("conn2-start-ms", 0, 3, 400, 4000)) * time.Millisecond
+			e.Reg.Add(model2)
+			w.Clients = append(w.Clients, e.StartClient(w.Ln, plan2, model2))
+		}
 		sample.Config, sample.AppLen, sample.ClientEnd = spec, appLen, plan.End
 		return w.Done
 	}, func() {
 		if e.S.Capped {
 			return
 		}
-		checkC02(e, cfg, model, hist, sample)
+		for _, m := range []*worlds.ConnModel{model, model2} {
+			if m == nil {
+				continue
+			}
+			var h []worlds.MatchEval
+			for _, ev := range hist {
+				if ev.Conn == m.Addr {
+					h = append(h, ev)
+				}
+			}
+			checkC02(e, cfg, m, h, sample)
+		}
 	})
 	nontrivial := len(sample.Rounds) >= 2 || len(model.HandlerCalls) >= 2
 	_ = cl
